@@ -133,7 +133,7 @@ func runSched13(rep *core.Report, tier string) {
 		jobs = append(jobs, job{scenario{adds: fj.adds}})
 	}
 	failFrom := len(jobs) - len(failJobs)
-	maxExec := 600
+	maxExec := 3000
 	if thorough {
 		maxExec = 100000
 	}
